@@ -14,7 +14,23 @@ Theorem C02_scan_next_all :
 Proof. exact scan_next_all. Qed.
 Print Assumptions C02_scan_next_all.
 
-(* PARTIAL: the reverse scan (AFTER_LAST, PREV), the EQ/GE positioning and the positioned read/write operations are in
+(* EQ positions on the given key or reports not-found - for every chain satisfying the invariant of C01, every comparator
+   that is a total preorder, and whatever the cursor did before (cur is arbitrary) *)
+Theorem C02_cursor_eq_spec :
+  forall (K V : Type) (cmp : K -> K -> comparison) (IDXNUM PIVOT : nat), 1 <= PIVOT < IDXNUM ->
+    (forall a b c : K, cmp a b = Lt -> cmp b c = Eq -> cmp a c = Lt) ->
+    (forall a b c : K, cmp a b = Lt -> cmp b c = Lt -> cmp a c = Lt) ->
+    forall (c : chain K V) (cur : cursor) (k : K),
+      NodeInv K V cmp IDXNUM c -> ids_unique K V c ->
+      match cursor_to_key K V cmp c cur false k with
+      | (CROk, cur') => exists k' v, cursor_read K V c cur' = Some (k', v) /\ cmp k' k = Eq
+                                     /\ Spec.s_get K V cmp (flat K V c) k = Some v
+      | (_, _) => Spec.s_get K V cmp (flat K V c) k = None
+      end.
+Proof. exact cursor_eq_spec. Qed.
+Print Assumptions C02_cursor_eq_spec.
+
+(* PARTIAL: the reverse scan (AFTER_LAST, PREV), the GE positioning and the positioned read/write operations are in
    the model (KV/Cursor.v: cursor_to, cursor_to_key, cursor_read; KV/Inst.v: db_cset, db_cdel) and are tied to the
    implementation by the correspondence check, but no theorem about them is proved here. *)
 
